@@ -182,6 +182,7 @@ struct World {
     resp_count: BTreeMap<(String, String), u64>,
     give_count: BTreeMap<(String, String), u64>,
     cache: std::cell::RefCell<SnapCache>,
+    processed: BTreeSet<String>,       // signed request blobs some signer has processed successfully
 }
 
 struct Out {
@@ -233,6 +234,21 @@ impl World {
         self.reg.register(signed["signed"]["message"].as_str().unwrap_or(""), by, &signed["request"]);
         if !self.req_pool.iter().any(|(v, _)| v["signed"] == signed["signed"] && v["request"] == signed["request"]) { self.req_pool.push((signed.clone(), party)); }
     }
+    /// The response of the associated signer for the open nonce that answers the most complete version of the
+    /// request (versions of one request only grow): the one an orderly operator hands back.
+    fn best_right(&self, party: usize) -> Option<Value> {
+        let open = self.open_nonce(party)?;
+        let entries = |v: &Value| -> usize { sorted_map(&v["response"]["child_responses"]).iter().map(|(_, m)| m.as_object().map(|o| o.len()).unwrap_or(0)).sum() };
+        self.resp_pool.iter().enumerate().filter(|(_, (v, s))| *s == self.assoc[party] && v["response"]["nonce"].as_str() == Some(open.as_str()))
+            .max_by_key(|(i, (v, _))| (entries(v), *i)).map(|(_, (v, _))| v.clone())
+    }
+    /// May this pooled request be handed to signer `s` without desynchronising it from its proxy for good?
+    /// (A version of a request with a closed nonce that no signer ever processed may contain a revocation that
+    /// was answered under a later nonce: the signer, which has no memory of nonces, would carry it out again.)
+    fn safe_for(&self, req: &Value, made_by: usize, s: usize) -> bool {
+        made_by != self.signers[s].party || self.processed.contains(req["signed"]["message"].as_str().unwrap_or(""))
+            || self.open_nonce(made_by).as_deref() == req["request"]["nonce"].as_str()
+    }
     fn open_nonce(&self, party: usize) -> Option<String> { cur_proxy(self, party)["open_signer_request"].as_str().map(|s| s.to_string()) }
 }
 
@@ -259,6 +275,7 @@ fn emit(w: &mut World, before: &Snap, after: &Snap, op: &Value, hist: u64, ov: O
             let (t, by, intact) = req_msg_term(&mut w.it, &mut w.reg, r);
             let ok = sc["effect"]["result"] == "success";
             let (err, resp) = if ok {
+                w.processed.insert(r["signed"]["message"].as_str().unwrap_or("").to_string());
                 let ex = &sc["effect"]["events"][0]["ProxySignerExchangeDone"];
                 w.reg.register(ex["response"]["signed"]["message"].as_str().unwrap_or(""), sid, &ex["response"]["response"]);
                 if !w.resp_pool.iter().any(|(v, _)| v["signed"] == ex["response"]["signed"]) { w.resp_pool.push((ex["response"].clone(), s)); }
@@ -455,7 +472,7 @@ fn run_history(args: &Args, hist: u64, seed: u64, flags: &Flags, out: &Mutex<Out
     ];
     for s in signers.iter_mut() { s.id = id_of(&mut it, &signer_json(s)["id"]); }
     let mut w = World { parties: vec![a, b], signers, proxy_store_a, assoc: [0, 1], proxy_ids, it, reg: Registry::default(), req_pool: vec![], resp_pool: vec![],
-        children: vec![], reinit_done: false, resp_count: BTreeMap::new(), give_count: BTreeMap::new(), cache: Default::default() };
+        children: vec![], reinit_done: false, resp_count: BTreeMap::new(), give_count: BTreeMap::new(), cache: Default::default(), processed: BTreeSet::new() };
     // exchanges done during bootstrap: learn their messages
     for s in 0..w.signers.len() {
         let sj = signer_json(&w.signers[s]);
@@ -535,13 +552,14 @@ fn run_history(args: &Args, hist: u64, seed: u64, flags: &Flags, out: &Mutex<Out
             if w.open_nonce(p).is_none() {
                 let _ = step!(json!({"op": "make_request", "party": p}), None, None, make_request(&mut w, p));
             }
-            if let Some(req) = fetch_current(&mut w, p) {
+            if let Some(resp) = w.best_right(p) {
+                // the associated signer has answered this nonce already: its most complete answer goes back
+                let _ = step!(json!({"op": "respond", "party": p, "response": "open-nonce,associated-signer"}), None, None, respond_to(&w, p, &resp));
+            } else if let Some(req) = fetch_current(&mut w, p) {
                 let s = w.assoc[p];
                 let cur = if in_step(&w, p) { Some(s) } else { None };
-                let n0 = w.resp_pool.len();
                 let _ = step!(json!({"op": "sign", "signer": w.signers[s].label, "request": "current"}), None, cur, sign_at(&w, s, &req, None));
-                if w.resp_pool.len() > n0 {
-                    let resp = w.resp_pool.last().unwrap().0.clone();
+                if let Some(resp) = w.best_right(p) {
                     let _ = step!(json!({"op": "respond", "party": p, "response": "fresh"}), None, None, respond_to(&w, p, &resp));
                 }
             }
@@ -550,7 +568,7 @@ fn run_history(args: &Args, hist: u64, seed: u64, flags: &Flags, out: &Mutex<Out
 
     let reinit_at = if rng.chance(45) { flags.n_ops / 2 + rng.below(flags.n_ops / 3 + 1) } else { u64::MAX };
     for opi in 0..flags.n_ops {
-        if opi >= reinit_at && !w.reinit_done && !flags.wedge && w.children.iter().all(|c| key_state(&w.parties[0], c).0 == "active") {
+        if opi >= reinit_at && !w.reinit_done && w.children.iter().all(|c| key_state(&w.parties[0], c).0 == "active") {
             // finish whatever is open, then associate the proxy with the re-initialised signer
             if w.open_nonce(0).is_some() { honest_exchange!(0); }
             for c in w.children.clone() { let _ = step!(json!({"op": "child_sync", "child": c}), None, None, w.parties[0].sync_parent(&c, "ta").map(|_| ()).map_err(|e| e.to_string())); }
@@ -577,7 +595,8 @@ fn run_history(args: &Args, hist: u64, seed: u64, flags: &Flags, out: &Mutex<Out
                 let party = w.signers[s].party;
                 let (req, what, cur): (Option<Value>, String, Option<usize>) = match rng.weighted(&[50, 30, 20]) {
                     0 => { let r = fetch_current(&mut w, party); let cur = if r.is_some() && w.assoc[party] == s && in_step(&w, party) { Some(s) } else { None }; (r, "current".into(), cur) }
-                    1 => { if w.req_pool.is_empty() { (None, "".into(), None) } else { let (r, pp) = rng.pick(&w.req_pool).clone(); (Some(r), format!("from-pool(made by proxy {})", if pp == 0 { "A" } else { "B" }), None) } }
+                    1 => { let cands: Vec<(Value, usize)> = w.req_pool.iter().filter(|(r, pp)| w.safe_for(r, *pp, s)).cloned().collect();
+                           if cands.is_empty() { (None, "".into(), None) } else { let (r, pp) = rng.pick(&cands).clone(); (Some(r), format!("from-pool(made by proxy {})", if pp == 0 { "A" } else { "B" }), None) } }
                     _ => { if w.req_pool.is_empty() { (None, "".into(), None) } else { let base = rng.pick(&w.req_pool).0.clone(); let (t, how) = tamper_request(&w, &mut rng, &base); (Some(t), format!("altered:{how}"), None) } }
                 };
                 if let Some(req) = req {
@@ -594,11 +613,14 @@ fn run_history(args: &Args, hist: u64, seed: u64, flags: &Flags, out: &Mutex<Out
                 let right: Vec<usize> = matching.iter().copied().filter(|i| w.resp_pool[*i].1 == assoc).collect();
                 let wrong: Vec<usize> = matching.iter().copied().filter(|i| w.resp_pool[*i].1 != assoc).collect();
                 let (resp, what): (Value, String) = match rng.weighted(&[45, 17, 20, 18]) {
-                    0 if !right.is_empty() => (w.resp_pool[*right.last().unwrap()].0.clone(), "open-nonce,associated-signer".into()),
+                    0 if !right.is_empty() => (w.best_right(p).unwrap(), "open-nonce,associated-signer".into()),
                     1 if !wrong.is_empty() => (w.resp_pool[*rng.pick(&wrong)].0.clone(), "open-nonce,other-signer".into()),
-                    3 => { let base = rng.pick(&w.resp_pool).0.clone(); let base = if !right.is_empty() && rng.chance(50) { w.resp_pool[*right.last().unwrap()].0.clone() } else { base };
+                    3 => { let base = rng.pick(&w.resp_pool).0.clone(); let base = if !right.is_empty() && rng.chance(50) { w.best_right(p).unwrap() } else { base };
                            let (t, how) = tamper_response(&w, &mut rng, &base, open.as_deref()); (t, format!("altered:{how}")) }
-                    _ => { let (v, s) = rng.pick(&w.resp_pool).clone(); (v, format!("from-pool(made by {})", w.signers[s].label)) }
+                    _ => { let (v, s) = rng.pick(&w.resp_pool).clone();
+                           // an answer of the associated signer for the open nonce: never an older version than the best one
+                           if s == assoc && open.is_some() && v["response"]["nonce"].as_str() == open.as_deref() { (w.best_right(p).unwrap(), "open-nonce,associated-signer".into()) }
+                           else { (v, format!("from-pool(made by {})", w.signers[s].label)) } }
                 };
                 let _ = step!(json!({"op": "respond", "party": p, "response": what}), None, None, respond_to(&w, p, &resp));
             }
@@ -627,7 +649,7 @@ fn run_history(args: &Args, hist: u64, seed: u64, flags: &Flags, out: &Mutex<Out
                 }
                 if cands.is_empty() { continue }
                 let (key, why) = rng.pick(&cands).clone();
-                revoke_call(&mut w, &c, &key, why, hist, out);
+                let _ = revoke_call(&mut w, &c, &key, why, hist, out);
             }
             9 => { if w.children.len() < 4 && rng.chance(50) {
                        let i = w.children.len(); let name = ["a", "b", "c", "d"][i].to_string();
@@ -677,10 +699,8 @@ fn run_history(args: &Args, hist: u64, seed: u64, flags: &Flags, out: &Mutex<Out
                 // the honest answer (to the request as fetched BEFORE the child calls above), first altered, then as it is, then replayed
                 let same_content = fetch_current(&mut w, 0).map(|v| v["request"] == req["request"]).unwrap_or(false);
                 let cur = if in_step(&w, 0) && same_content { Some(assoc) } else { None };
-                let n0 = w.resp_pool.len();
                 let _ = step!(json!({"op": "sign", "signer": w.signers[assoc].label, "request": "current"}), None, cur, sign_at(&w, assoc, &req, None));
-                if w.resp_pool.len() > n0 {
-                    let resp = w.resp_pool.last().unwrap().0.clone();
+                if let Some(resp) = w.best_right(0) {
                     let (t, how) = tamper_response(&w, &mut rng, &resp, None);
                     let _ = step!(json!({"op": "respond", "party": 0, "response": format!("altered:fresh,{how}")}), None, None, respond_to(&w, 0, &t));
                     let _ = step!(json!({"op": "respond", "party": 0, "response": "fresh"}), None, None, respond_to(&w, 0, &resp));
@@ -689,7 +709,7 @@ fn run_history(args: &Args, hist: u64, seed: u64, flags: &Flags, out: &Mutex<Out
             }
             _ => { // replay: the last processed request again at the same signer, the last accepted response again at the proxy
                 if rng.chance(50) {
-                    if let Some((v, p)) = w.req_pool.last().cloned() { let s = w.assoc[p];
+                    if let Some((v, p)) = w.req_pool.iter().rev().find(|(r, pp)| w.safe_for(r, *pp, w.assoc[*pp])).cloned() { let s = w.assoc[p];
                         let _ = step!(json!({"op": "sign", "signer": w.signers[s].label, "request": "replay-of-latest"}), None, None, sign_at(&w, s, &v, None)); }
                 } else if let Some((v, _)) = w.resp_pool.iter().rev().find(|(_, s)| *s == w.assoc[0]).cloned() {
                     let _ = step!(json!({"op": "respond", "party": 0, "response": "replay-of-latest"}), None, None, respond_to(&w, 0, &v));
@@ -745,34 +765,57 @@ fn run_history(args: &Args, hist: u64, seed: u64, flags: &Flags, out: &Mutex<Out
         }
     }
 
-    // ---- finding F15b (only with --wedge 1): second revocation of an already revoked key
+    // ---- F15b (fixed in the repaired tree): a second revocation of an already revoked key must be refused at the
+    //      proxy, and the trust anchor must keep working afterwards (a later key roll of a child completes)
     if flags.wedge && !w.reinit_done {
         if w.open_nonce(0).is_some() { honest_exchange!(0); }
+        macro_rules! roll_round {
+            ($c:expr, $why:expr) => {{
+                let c: String = $c;
+                let (tag, _) = key_state(&w.parties[0], &c);
+                let stepname = match tag.as_str() { "active" => "init", "roll_new" => "activate", _ => "sync" };
+                let _ = step!(json!({"op": "roll_step", "child": c, "step": stepname, "why": $why}), None, None, match stepname {
+                    "init" => w.parties[0].keyroll_init(&c).and_then(|_| w.parties[0].sync_parent(&c, "ta").map(|_| ())),
+                    "activate" => w.parties[0].keyroll_activate(&c).and_then(|_| w.parties[0].sync_parent(&c, "ta").map(|_| ())),
+                    _ => w.parties[0].sync_parent(&c, "ta").map(|_| ()),
+                }.map_err(|e| e.to_string()));
+                let pending = sorted_map(&cur_proxy(&w, 0)["child_details"]).iter().any(|(_, ch)| ch["open_requests"].as_object().map(|m| !m.is_empty()).unwrap_or(false));
+                if pending || w.open_nonce(0).is_some() { honest_exchange!(0); }
+            }};
+        }
+        let healthy = w.open_nonce(0).is_none();
         let c = w.children[0].clone();
         let mut revoked: Option<String> = None;
-        for round in 0..14 {
+        for _ in 0..16 {
             let pj = cur_proxy(&w, 0);
             revoked = sorted_map(&pj["child_details"][c.as_str()]["used_keys"]).iter().find(|(_, s)| s.as_str() == Some("revoked")).map(|(k, _)| (*k).clone());
             if revoked.is_some() && key_state(&w.parties[0], &c).0 == "active" { break }
-            let (tag, _) = key_state(&w.parties[0], &c);
-            let stepname = match tag.as_str() { "active" => "init", "roll_new" => "activate", _ => "sync" };
-            let _ = step!(json!({"op": "roll_step", "child": c, "step": stepname, "round": round}), None, None, match stepname {
-                "init" => w.parties[0].keyroll_init(&c).and_then(|_| w.parties[0].sync_parent(&c, "ta").map(|_| ())),
-                "activate" => w.parties[0].keyroll_activate(&c).and_then(|_| w.parties[0].sync_parent(&c, "ta").map(|_| ())),
-                _ => w.parties[0].sync_parent(&c, "ta").map(|_| ()),
-            }.map_err(|e| e.to_string()));
-            if cur_proxy(&w, 0)["child_details"][c.as_str()]["open_requests"].as_object().map(|m| !m.is_empty()).unwrap_or(false) { honest_exchange!(0); }
+            roll_round!(c.clone(), "towards a revoked key");
         }
-        if let Some(k) = revoked {
-            revoke_call(&mut w, &c, &k, "key-already-revoked", hist, out);
-            let cur = if in_step(&w, 0) { Some(w.assoc[0]) } else { None };
-            let r1 = step!(json!({"op": "sync_ta", "party": 0, "after": "second revocation of a revoked key"}), None, cur, w.parties[0].sync_ta().map_err(|e| e.to_string()));
-            let r2 = step!(json!({"op": "sync_ta", "party": 0, "after": "wedge"}), None, None, w.parties[0].sync_ta().map_err(|e| e.to_string()));
-            let other = w.children.last().unwrap().clone();
-            let _ = step!(json!({"op": "roll_step", "child": other, "step": "init", "after": "wedge"}), None, None, w.parties[0].keyroll_init(&other).and_then(|_| w.parties[0].sync_parent(&other, "ta").map(|_| ())).map_err(|e| e.to_string()));
-            let r3 = step!(json!({"op": "sync_ta", "party": 0, "after": "wedge"}), None, None, w.parties[0].sync_ta().map_err(|e| e.to_string()));
-            out.lock().unwrap().notes.push(json!({"history": hist, "finding": "F15b", "child": c, "key": k, "first_exchange": format!("{r1:?}"), "second_exchange": format!("{r2:?}"), "third_exchange": format!("{r3:?}"),
-                "open_request_left": w.open_nonce(0), "other_child_key_state": key_state(&w.parties[0], &other).0}));
+        match (healthy, revoked) {
+            (true, Some(k)) => {
+                let outcome = revoke_call(&mut w, &c, &k, "key-already-revoked", hist, out);
+                let stored = cur_proxy(&w, 0)["child_details"][c.as_str()]["open_requests"].get(k.as_str()).is_some();
+                let cur = if in_step(&w, 0) { Some(w.assoc[0]) } else { None };
+                let r1 = step!(json!({"op": "sync_ta", "party": 0, "after": "second revocation of a revoked key"}), None, cur, w.parties[0].sync_ta().map_err(|e| e.to_string()));
+                // a complete key roll of another child
+                let other = w.children.last().unwrap().clone();
+                let mut seen_roll = false; let mut done = false;
+                for _ in 0..20 {
+                    let (tag, _) = key_state(&w.parties[0], &other);
+                    if tag != "active" { seen_roll = true; }
+                    if tag == "active" && seen_roll { done = true; break }
+                    roll_round!(other.clone(), "after the refused second revocation");
+                }
+                let mut o = out.lock().unwrap();
+                o.notes.push(json!({"history": hist, "scenario": "second revocation of a revoked key (F15b, fixed)", "child": c, "key": k, "call_outcome": outcome, "request_stored": stored,
+                    "exchange_after": format!("{r1:?}"), "later_key_roll_of": other, "later_key_roll_completed": done}));
+                if outcome != "CFailed" || stored { o.impl_failures.push(json!({"index": null, "history": hist, "class": {"second_revocation_admitted": true},
+                    "what": format!("child {c}: a revocation request for key {k}, already marked revoked at the TA proxy, was admitted ({outcome})")})); }
+                if r1.is_err() || !done { o.impl_failures.push(json!({"index": null, "history": hist, "class": {"ta_wedged_after_second_revocation": true},
+                    "what": format!("after the second revocation of key {k}: exchange {r1:?}, key roll of child {other} completed: {done}, open request: {:?}", cur_proxy(&w, 0)["open_signer_request"])})); }
+            }
+            (h, r) => { out.lock().unwrap().notes.push(json!({"history": hist, "scenario": "second revocation of a revoked key (F15b, fixed)", "skipped": true, "open_request_could_be_closed_before": h, "revoked_key_found": r.is_some()})); }
         }
     }
 
@@ -795,7 +838,7 @@ fn run_history(args: &Args, hist: u64, seed: u64, flags: &Flags, out: &Mutex<Out
     let _ = std::fs::remove_dir_all(&dir);
 }
 
-fn revoke_call(w: &mut World, c: &str, key: &str, why: &str, hist: u64, out: &Mutex<Out>) {
+fn revoke_call(w: &mut World, c: &str, key: &str, why: &str, hist: u64, out: &Mutex<Out>) -> &'static str {
     use std::io::Write;
     let before = snap(w);
     let ki = KeyIdentifier::from_str(key).expect("key id");
@@ -817,12 +860,13 @@ fn revoke_call(w: &mut World, c: &str, key: &str, why: &str, hist: u64, out: &Mu
     writeln!(o.jsonl, "{rec}").unwrap();
     o.distinct.insert(format!("C|{why}|{outcome}"));
     o.w.push(term);
+    match outcome { "CFailed" => "CFailed", "CScheduled" => "CScheduled", "CAlready" => "CAlready", _ => "CDelivered" }
 }
 
 fn main() {
     let args = Args::parse("c15");
     let n_hist = args.get_u64("histories", if args.thorough() { 96 } else { 8 });
-    let flags = Flags { wedge: args.get_u64("wedge", 0) == 1, late: args.get_u64("late", 0) == 1, n_ops: args.get_u64("ops", if args.thorough() { 90 } else { 40 }) };
+    let flags = Flags { wedge: args.get_u64("wedge", 1) == 1, late: args.get_u64("late", 0) == 1, n_ops: args.get_u64("ops", if args.thorough() { 90 } else { 40 }) };
     let out = Mutex::new(Out { w: CaseWriter::new(&args.out, HEADER, "list case", FOOTER, 80), jsonl: std::fs::File::create(args.out.join("cases.jsonl")).unwrap(),
         op_hist: BTreeMap::new(), kind_hist: BTreeMap::new(), result_hist: BTreeMap::new(), alter_hist: BTreeMap::new(), distinct: BTreeSet::new(), samples: vec![], impl_failures: vec![], notes: vec![], unknown_blobs: 0 });
     std::panic::set_hook(Box::new(|_| {}));
